@@ -158,6 +158,11 @@ Proof.
   - (* batch *)
     unfold sem_ops. simpl. unfold sem_stage. rewrite <- F. simpl.
     destruct (chunks_from n [] (fst S)) as [ys e]. simpl. apply swk_ext. exact W.
+  - (* ordered parallel map: the worker count does not enter the list semantics *)
+    subst. unfold sem_ops. cbn [kind_ops fold_left]. unfold sem_stage, ksem. rewrite <- F.
+    cbn [sem_op op_resumes]. change (elem_fn (OParMap true w a b)) with (elem_fn (OParMap true 1 a b)).
+    destruct (elementwise (elem_fn (OParMap true 1 a b)) false (fst S)) as [ys e]. cbn [fst snd].
+    apply swk_ext. exact W.
 Qed.
 
 Lemma plan_sem_sem input ks : Forall kok ks ->
